@@ -2,6 +2,7 @@
 From Gokrb5.lib Require Import Bytes JV.
 From Gokrb5.prim Require CBC.
 From Gokrb5.model Require Import Crypto.
+From Gokrb5.proofs Require Import CBCGuarded.
 Import CBC.
 
 Lemma zeros_length n : length (zeros n) = n.
@@ -66,8 +67,9 @@ Qed.
 
 Section CTS.
   Variables enc dec : bytes -> bytes.
-  Hypothesis dec_enc : forall b, length b = 16%nat -> dec (enc b) = b.
+  Hypothesis dec_enc : forall b, length b = 16%nat -> wf_bytes b -> dec (enc b) = b.
   Hypothesis enc_length : forall b, length b = 16%nat -> length (enc b) = 16%nat.
+  Hypothesis enc_wf : forall b, length b = 16%nat -> wf_bytes b -> wf_bytes (enc b).
 
   Lemma zeros16 : length (zeros 16) = 16%nat.
   Proof. apply zeros_length. Qed.
@@ -98,9 +100,10 @@ Section CTS.
      of 1..16 bytes. *)
   Theorem cts_roundtrip_blocks (body : list bytes) (t : bytes) :
     Forall (fun b => length b = 16%nat) body -> body <> [] -> (0 < length t <= 16)%nat ->
+    Forall wf_bytes body -> wf_bytes t ->
     cts_decrypt dec (cts_encrypt enc (concat body ++ t)) = Ok (concat body ++ t).
   Proof.
-    intros Hbody Hne Ht.
+    intros Hbody Hne Ht Wbody Wt.
     set (k := length t).
     set (tp := t ++ zeros (16 - k)).
     assert (Htp : length tp = 16%nat) by (unfold tp; rewrite app_length, zeros_length; unfold k; lia).
@@ -130,6 +133,11 @@ Section CTS.
     assert (Hcprev : length cprev = 16%nat) by (apply last_enc_blocks_length; [apply zeros16|exact Hbody]).
     assert (Hx : length (xor_bytes tp cprev) = 16%nat) by (rewrite xor_bytes_length_eq; lia).
     assert (Hclast : length clast = 16%nat) by (apply enc_length; exact Hx).
+    assert (Wtp : wf_bytes tp) by (unfold tp; apply wf_bytes_app; split; [exact Wt|apply zeros_wf]).
+    assert (Wcs : Forall wf_bytes cs)
+      by (apply (cbc_enc_blocks_wf enc 16 enc_length enc_wf); auto using zeros16, zeros_wf).
+    assert (Wcprev : wf_bytes cprev) by (apply wf_last; [exact Wcs|apply zeros_wf]).
+    assert (Wx : wf_bytes (xor_bytes tp cprev)) by (apply xor_bytes_wf; assumption).
     assert (Hall : Forall (fun b => length b = 16%nat) (cs ++ [clast]))
       by (apply Forall_len_app; [exact Hcs|constructor; [exact Hclast|constructor]]).
     rewrite chunks_of_concat by (auto; lia).
@@ -170,7 +178,7 @@ Section CTS.
     (* the stolen tail is recovered from dec clast *)
     assert (Hsteal : firstn k cl1 ++ skipn (length (firstn k cl1)) (dec clast) = cl1).
     { rewrite firstn_length, Hcl1. replace (Nat.min k 16) with k by (unfold k in *; lia).
-      unfold clast. rewrite dec_enc by exact Hx. rewrite xor_skipn.
+      unfold clast. rewrite dec_enc by assumption. rewrite xor_skipn.
       unfold tp. rewrite skipn_app, skipn_all2 by (unfold k; lia).
       replace (k - length t)%nat with 0%nat by (unfold k; lia). cbn [skipn app].
       rewrite xor_zeros_l by (rewrite skipn_length, Hcprev; reflexivity).
@@ -182,15 +190,16 @@ Section CTS.
       replace l with (cs ++ [clast]) by (rewrite Ecs, <- app_assoc; reflexivity) end.
     rewrite (chunks_of_concat 16 (cs ++ [clast])); [|lia|exact Hall].
     unfold cs, clast, cprev. rewrite <- enc_blocks_snoc.
-    rewrite (cbc_dec_enc_blocks enc dec 16 dec_enc enc_length) by (auto using zeros16).
+    rewrite (cbc_dec_enc_blocks_g enc dec 16 dec_enc enc_length enc_wf);
+      [|apply zeros16|apply zeros_wf|exact Hblocks|apply Forall_app; split; [exact Wbody|constructor; [exact Wtp|constructor]]].
     f_equal. rewrite concat_app. cbn [concat]. rewrite app_nil_r. unfold tp. rewrite app_assoc.
     rewrite <- Hn. rewrite firstn_app, Nat.sub_diag. cbn [firstn]. rewrite app_nil_r. apply firstn_all.
   Qed.
 
   (* every message of at least one block *)
-  Theorem cts_roundtrip d : (16 <= length d)%nat -> cts_decrypt dec (cts_encrypt enc d) = Ok d.
+  Theorem cts_roundtrip d : (16 <= length d)%nat -> wf_bytes d -> cts_decrypt dec (cts_encrypt enc d) = Ok d.
   Proof.
-    intros Hlen. destruct (Nat.eq_dec (length d) 16) as [E16|N16].
+    intros Hlen Wd. destruct (Nat.eq_dec (length d) 16) as [E16|N16].
     - (* exactly one block: plain CBC *)
       unfold cts_encrypt, zpad. rewrite E16. cbn [Nat.modulo Nat.leb]. 
       replace ((16 - 16 mod 16) mod 16)%nat with 0%nat by reflexivity.
@@ -198,7 +207,8 @@ Section CTS.
       assert (length (cbc_encrypt enc 16 (zeros 16) d) = 16%nat) as L.
       { rewrite (cbc_encrypt_length enc 16 enc_length (zeros 16) d 1); [exact E16|lia|apply zeros16|lia]. }
       unfold cts_decrypt. rewrite L. cbn [Nat.ltb Nat.leb Nat.eqb].
-      rewrite (cbc_decrypt_encrypt enc dec 16 dec_enc enc_length (zeros 16) d 1); [reflexivity|lia|apply zeros16|lia].
+      rewrite (cbc_decrypt_encrypt_g enc dec 16 dec_enc enc_length enc_wf (zeros 16) d 1);
+        [reflexivity|lia|apply zeros16|apply zeros_wf|lia|exact Wd].
     - set (m := ((length d - 1) / 16)%nat).
       assert (Hm : (1 <= m /\ 16 * m < length d <= 16 * m + 16)%nat).
       { unfold m. pose proof (Nat.div_mod (length d - 1) 16 ltac:(lia)) as D.
@@ -216,5 +226,7 @@ Section CTS.
       + intros C. apply (f_equal (@concat Z)) in C. rewrite concat_chunks in C by lia. cbn [concat] in C.
         rewrite C in Hhd. cbn [length] in Hhd. lia.
       + unfold t. rewrite skipn_length. lia.
+      + apply wf_chunks. unfold hd. apply wf_firstn, Wd.
+      + unfold t. apply wf_skipn, Wd.
   Qed.
 End CTS.
